@@ -16,5 +16,5 @@ EmitCross == (phase = "md") => \A a \in {x \in CrossPoints : x.md # x.md2} : Pri
 CrossIndependentOfUser == \A a, b \in CrossPoints : (a.md = b.md /\ a.kw = b.kw /\ a.kind = b.kind) => a.explicit = b.explicit
 ASSUME CrossIndependentOfUser
 ASSUME AutoOnlyInAutomaticModules
-ASSUME Cardinality(AutoPoints) = 168
+ASSUME Cardinality(AutoPoints) = 192
 =============================================================================
